@@ -62,6 +62,8 @@ mod embedded_io;
 mod hal;
 pub mod queue;
 pub mod transport;
+#[cfg(virtio_drivers_verif)]
+pub mod verif_hooks;
 
 use device::socket::SocketError;
 use thiserror::Error;
@@ -135,4 +137,18 @@ fn align_up_phys(size: PhysAddr) -> PhysAddr {
 /// The number of pages required to store `size` bytes, rounded up to a whole number of pages.
 fn pages(size: usize) -> usize {
     size.div_ceil(PAGE_SIZE)
+}
+
+/// Read-only access to private helpers for external verification harnesses.
+#[cfg(virtio_drivers_verif)]
+pub mod verif {
+    /// Wrapper for the private `align_up`.
+    pub fn align_up(size: usize) -> usize {
+        super::align_up(size)
+    }
+
+    /// Wrapper for the private `pages`.
+    pub fn pages(size: usize) -> usize {
+        super::pages(size)
+    }
 }
